@@ -1,6 +1,9 @@
 /-
 C03 — result datasets decompose the data exactly and on the right coordinates.
 Property theorems about `Glotaran.C03` (lean/GlotaranModel/C03.lean).
+
+`entry? m i j : Option Rat` (Lemmas/C03.lean) is entry (i, j) of a list-of-rows matrix,
+`none` when the position does not exist: `(m[i]?).bind (·[j]?)`.
 -/
 import GlotaranProofs.Lemmas.C03
 namespace Glotaran.C03
@@ -12,5 +15,270 @@ theorem finish_unweighted (d : Dataset) (labels : List String) (clps : List Vec)
     (finish d labels clps wres).residual = wres ∧ (finish d labels clps wres).weighted = none ∧
     (finish d labels clps wres).fitted = subMat d.data wres := by
   simp [finish, hw]
+
+/-! ### 1. data = fitted + residual, point by point, weighted or not -/
+
+/-- At every position that exists in the data, in the solver residual (and in the weight, when the
+    dataset has one — the weight entry may be zero) the result has a fitted value and a residual
+    there, and they add up to the data exactly. -/
+theorem data_eq_fitted_add_residual (d : Dataset) (labels : List String) (clps : List Vec) (wres : Mat)
+    (i j : Nat) (x e : Rat)
+    (hx : entry? d.data i j = some x) (he : entry? wres i j = some e)
+    (hw : ∀ w, d.weight = some w → (entry? w i j).isSome) :
+    ∃ f r, entry? (finish d labels clps wres).fitted i j = some f ∧
+           entry? (finish d labels clps wres).residual i j = some r ∧
+           f + r = x := by
+  cases hwt : d.weight with
+  | none =>
+    refine ⟨x - e, e, ?_, ?_, by ring⟩
+    · simp only [finish, hwt]; exact entry?_subMat _ _ _ _ _ _ hx he
+    · simp only [finish, hwt]; exact he
+  | some w =>
+    obtain ⟨ω, hω⟩ := Option.isSome_iff_exists.mp (hw w hwt)
+    have hr := entry?_divMat _ _ _ _ _ _ he hω
+    refine ⟨x - e / ω, e / ω, ?_, ?_, by ring⟩
+    · simp only [finish, hwt]; exact entry?_subMat _ _ _ _ _ _ hx hr
+    · simp only [finish, hwt]; exact hr
+
+/-- weighted 2 × 2 dataset (one weight entry is 0), position (1, 0) -/
+example :
+    let d : Dataset := { label := "a", globalAxis := [0, 1], data := [[1, 2], [3, 4]],
+                         weight := some [[2, 4], [0, 3]], scale := none, mcs := [], gmcs := [] }
+    ∃ f r, entry? (finish d ["c"] [] [[2, 4], [5, 9]]).fitted 1 0 = some f ∧
+           entry? (finish d ["c"] [] [[2, 4], [5, 9]]).residual 1 0 = some r ∧ f + r = 3 := by
+  intro d
+  refine data_eq_fitted_add_residual d ["c"] [] [[2, 4], [5, 9]] 1 0 3 5 (by decide +kernel)
+    (by decide +kernel) ?_
+  intro w hw
+  obtain rfl : [[2, 4], [0, 3]] = w := Option.some.inj hw
+  decide +kernel
+
+/-- unweighted, non-square (2 × 3), position (1, 2) -/
+example :
+    let d : Dataset := { label := "b", globalAxis := [0, 1, 2], data := [[1, 2, 3], [4, 5, 6]],
+                         weight := none, scale := none, mcs := [], gmcs := [] }
+    ∃ f r, entry? (finish d [] [] [[1, 1, 1], [1/2, 1/3, 1/4]]).fitted 1 2 = some f ∧
+           entry? (finish d [] [] [[1, 1, 1], [1/2, 1/3, 1/4]]).residual 1 2 = some r ∧ f + r = 6 := by
+  intro d
+  exact data_eq_fitted_add_residual d [] [] [[1, 1, 1], [1/2, 1/3, 1/4]] 1 2 6 (1/4) (by decide +kernel)
+    (by decide +kernel) (by intro w hw; cases hw)
+
+/-- Whole-matrix form (`shape m` = list of row lengths, `addMat` = entrywise sum, Lemmas/C03.lean):
+    when the solver residual (and the weight, if any) has the shape of the data — ragged or not —
+    `fitted + residual = data` as matrices. -/
+theorem data_eq_fitted_add_residual_mat (d : Dataset) (labels : List String) (clps : List Vec) (wres : Mat)
+    (hs : shape wres = shape d.data) (hw : ∀ w, d.weight = some w → shape w = shape d.data) :
+    addMat (finish d labels clps wres).fitted (finish d labels clps wres).residual = d.data := by
+  cases hwt : d.weight with
+  | none => simp only [finish, hwt]; exact subMat_addMat _ _ hs.symm
+  | some w =>
+    simp only [finish, hwt]
+    apply subMat_addMat
+    rw [shape_divMat wres w (by rw [hs, hw w hwt]), hs]
+
+example :
+    let d : Dataset := { label := "a", globalAxis := [0, 1], data := [[1, 2], [3, 4], [5, 6]],
+                         weight := some [[2, 4], [0, 3], [1, 1]], scale := none, mcs := [], gmcs := [] }
+    addMat (finish d ["c"] [] [[2, 4], [5, 9], [0, 1]]).fitted (finish d ["c"] [] [[2, 4], [5, 9], [0, 1]]).residual
+      = [[1, 2], [3, 4], [5, 6]] := by
+  intro d
+  exact data_eq_fitted_add_residual_mat d ["c"] [] [[2, 4], [5, 9], [0, 1]] (by decide)
+    (by intro w hw; obtain rfl : [[2, 4], [0, 3], [1, 1]] = w := Option.some.inj hw; decide)
+
+/-! ### 2. weighted residual = weight × residual -/
+
+theorem weighted_residual_eq (d : Dataset) (labels : List String) (clps : List Vec) (wres w : Mat)
+    (hw : d.weight = some w) :
+    (finish d labels clps wres).weighted = some wres ∧
+    ∀ i j ω e, entry? w i j = some ω → entry? wres i j = some e → ω ≠ 0 →
+      ∃ r, entry? (finish d labels clps wres).residual i j = some r ∧ ω * r = e := by
+  refine ⟨by simp only [finish, hw], ?_⟩
+  intro i j ω e hω he hne
+  refine ⟨e / ω, ?_, by field_simp⟩
+  simp only [finish, hw]; exact entry?_divMat _ _ _ _ _ _ he hω
+
+example :
+    let d : Dataset := { label := "a", globalAxis := [0, 1], data := [[1, 2], [3, 4]],
+                         weight := some [[2, 4], [0, 3]], scale := none, mcs := [], gmcs := [] }
+    ∃ r, entry? (finish d ["c"] [] [[2, 4], [5, 9]]).residual 1 1 = some r ∧ 3 * r = 9 := by
+  intro d
+  exact (weighted_residual_eq d ["c"] [] [[2, 4], [5, 9]] [[2, 4], [0, 3]] rfl).2 1 1 3 9
+    (by decide +kernel) (by decide +kernel) (by decide +kernel)
+
+/-! ### 3. per-index columns land on (model, global) -/
+
+/-- `ofColumns nModel cols` is an `nModel × cols.length` matrix whose entry (m, g) is entry m of
+    column g (0 where the column is too short): the residual of global index g sits in column g. -/
+theorem ofColumns_entry (nModel : Nat) (cols : List Vec) :
+    (ofColumns nModel cols).length = nModel ∧
+    (∀ r ∈ ofColumns nModel cols, r.length = cols.length) ∧
+    ∀ (m g : Nat) (_ : m < nModel) (hg : g < cols.length),
+      entry? (ofColumns nModel cols) m g = some (cols[g].getD m 0) :=
+  ⟨ofColumns_length nModel cols, ofColumns_row_length nModel cols,
+   fun m g hm hg => entry?_ofColumns nModel cols m g hm hg⟩
+
+/-- the same with `getElem`: `(ofColumns nModel cols)[m][g] = cols[g].getD m 0` -/
+theorem ofColumns_getElem_getElem (nModel : Nat) (cols : List Vec) (m g : Nat)
+    (hm : m < (ofColumns nModel cols).length) (hg : g < (ofColumns nModel cols)[m].length) :
+    (ofColumns nModel cols)[m][g] =
+      (cols[g]'(by rw [ofColumns_row_length nModel cols _ (List.getElem_mem hm)] at hg; exact hg)).getD m 0 := by
+  have hg' : g < cols.length := by
+    rw [ofColumns_row_length nModel cols _ (List.getElem_mem hm)] at hg; exact hg
+  have hm' : m < nModel := by rw [ofColumns_length] at hm; exact hm
+  obtain ⟨_, _, h⟩ := (entry?_eq_some_iff _ _ _ _).mp (entry?_ofColumns nModel cols m g hm' hg')
+  exact h
+
+example : ofColumns 3 [[1, 2, 3], [4, 5, 6]] = [[1, 4], [2, 5], [3, 6]] ∧
+    entry? (ofColumns 3 [[1, 2, 3], [4, 5, 6]]) 2 1 = some 6 :=
+  ⟨by decide +kernel, (ofColumns_entry 3 [[1, 2, 3], [4, 5, 6]]).2.2 2 1 (by decide) (by decide)⟩
+
+/-! ### 4. full model: un-flattening is inverse to `data.T.flatten()` -/
+
+/-- `chunk n k` cuts the concatenation of `k` vectors of length `n` back into those vectors -/
+theorem chunk_flatten (n k : Nat) (vs : List Vec) (hk : vs.length = k) (hn : ∀ v ∈ vs, v.length = n) :
+    chunk n k vs.flatten = vs := by
+  subst hk; exact Glotaran.C03.chunk_flatten' n vs hn
+
+example : chunk 2 3 [[1, 2], [3, 4], [5, 6]].flatten = [[1, 2], [3, 4], [5, 6]] :=
+  chunk_flatten 2 3 _ rfl (by decide)
+
+/-- For an `M × G` matrix `a`, flattening global-major (`a.T.flatten()`: entry `g·M + m`),
+    cutting into `G` chunks of `M` and laying the chunks out as columns gives `a` back — square or not. -/
+theorem ofColumns_chunk_flatten (a : Mat) (M G : Nat) (hM : a.length = M) (hG : ∀ r ∈ a, r.length = G) :
+    ofColumns M (chunk M G ((List.range G).flatMap (fun g => col a g))) = a := by
+  subst hM
+  rw [chunk_flatMap_col, ofColumns_columns a G hG]
+
+/-- 3 × 2 -/
+example :
+    let a : Mat := [[1, 2], [3, 4], [5, 6]]
+    (List.range 2).flatMap (fun g => col a g) = [1, 3, 5, 2, 4, 6] ∧
+    ofColumns 3 (chunk 3 2 [1, 3, 5, 2, 4, 6]) = a := by
+  intro a
+  refine ⟨by decide +kernel, ?_⟩
+  have h := ofColumns_chunk_flatten a 3 2 rfl (by decide)
+  have hf : (List.range 2).flatMap (fun g => col a g) = [1, 3, 5, 2, 4, 6] := by decide +kernel
+  rw [hf] at h; exact h
+
+/-! ### 5. linked groups: un-stacking the residual of an aligned index -/
+
+/-- Slicing the stacked vector by the sizes of the preceding blocks returns block `k`
+    (offset in the `foldl (· + ·) 0` form `linkedResults` uses). -/
+theorem unstack_stack (bs : List Vec) (k : Nat) (hk : k < bs.length) :
+    (bs.flatten.drop (((bs.take k).map List.length).foldl (· + ·) 0)).take bs[k].length = bs[k] := by
+  rw [foldl_add_eq_sum]; exact unstack_stack_sum bs k hk
+
+/-- the same with `List.sum` -/
+theorem unstack_stack_sum' (bs : List Vec) (k : Nat) (hk : k < bs.length) :
+    (bs.flatten.drop ((bs.take k).map List.length).sum).take bs[k].length = bs[k] :=
+  unstack_stack_sum bs k hk
+
+example : (([[1, 2], [3], [4, 5, 6]] : List Vec).flatten.drop
+      (((([[1, 2], [3], [4, 5, 6]] : List Vec).take 2).map List.length).foldl (· + ·) 0)).take 3 = [4, 5, 6] :=
+  unstack_stack [[1, 2], [3], [4, 5, 6]] 2 (by decide)
+
+/-! ### 6. unlinked result: label, one clp vector per global index, model-axis size -/
+
+/-- The exact shape: the residual has `nModel` rows, cut to the number of weight rows when the
+    dataset carries a weight (`divMat` is a `zipWith`). -/
+theorem unlinked_result_shape (mi : ModelItems) (s : Solver) (d : Dataset) (r : DsResult)
+    (h : unlinkedResult mi s d = some r) (hg : d.gmcs = []) :
+    r.label = d.label ∧ r.clps.length = d.nGlobal ∧
+    r.residual.length = (match d.weight with | none => d.nModel | some w => min d.nModel w.length) :=
+  unlinkedResult_shape mi s d r hg h
+
+/-- The statement without a hypothesis on the weight,
+    `∀ mi s d r, unlinkedResult mi s d = some r → d.gmcs = [] →
+       r.label = d.label ∧ r.clps.length = d.nGlobal ∧ r.residual.length = d.nModel`,
+    is false in the model: a weight with fewer rows than the data truncates the residual. -/
+theorem unlinked_result_labels_and_count_counterexample :
+    ¬ ∀ (mi : ModelItems) (s : Solver) (d : Dataset) (r : DsResult),
+        unlinkedResult mi s d = some r → d.gmcs = [] →
+        r.label = d.label ∧ r.clps.length = d.nGlobal ∧ r.residual.length = d.nModel := by
+  intro hall
+  let d : Dataset :=
+    { label := "a", globalAxis := [0], data := [[1], [2]], weight := some [[1]], scale := none,
+      mcs := [⟨⟨["c"], .d2 [[1], [1]]⟩, none⟩], gmcs := [] }
+  have hev : (unlinkedResult {} .vp d).map (fun r => r.residual.length) = some 1 := by decide +kernel
+  obtain ⟨r, hr, hlen⟩ := Option.map_eq_some_iff.mp hev
+  have := (hall {} .vp d r hr rfl).2.2
+  rw [hlen] at this
+  exact absurd this (by decide)
+
+/-- With a weight that has (at least) one row per model-axis point — in particular a weight of the
+    shape of the data — the result carries the dataset's label, one clp vector per global index and a
+    residual with one row per model-axis point. -/
+theorem unlinked_result_labels_and_count_partial (mi : ModelItems) (s : Solver) (d : Dataset) (r : DsResult)
+    (h : unlinkedResult mi s d = some r) (hg : d.gmcs = [])
+    (hw : ∀ w, d.weight = some w → d.nModel ≤ w.length) :
+    r.label = d.label ∧ r.clps.length = d.nGlobal ∧ r.residual.length = d.nModel := by
+  obtain ⟨h1, h2, h3⟩ := unlinkedResult_shape mi s d r hg h
+  refine ⟨h1, h2, ?_⟩
+  cases hwt : d.weight with
+  | none => simpa [hwt] using h3
+  | some w =>
+    have := hw w hwt
+    rw [h3]; simp only [hwt]; omega
+
+/-- a weighted 2 × 2 dataset with one compartment: the result exists and has the stated shape -/
+example :
+    let d : Dataset :=
+      { label := "a", globalAxis := [0, 1], data := [[1, 2], [2, 3]], weight := some [[1, 2], [1, 1]],
+        scale := none, mcs := [⟨⟨["c"], .d2 [[1], [1]]⟩, none⟩], gmcs := [] }
+    ∃ r, unlinkedResult {} .vp d = some r ∧ r.label = "a" ∧ r.clps.length = 2 ∧ r.residual.length = 2 := by
+  intro d
+  have hs : (unlinkedResult {} .vp d).isSome = true := by decide +kernel
+  obtain ⟨r, hr⟩ := Option.isSome_iff_exists.mp hs
+  exact ⟨r, hr, unlinked_result_labels_and_count_partial {} .vp d r hr rfl
+    (by intro w hw; obtain rfl : [[1, 2], [1, 1]] = w := Option.some.inj hw; decide)⟩
+
+/-! ### 7. linked groups use dataset labels only through equality tests -/
+
+/-- Renaming the datasets of a linked group (`renameGroup f`, Lemmas/C03.lean: every dataset label
+    `l` becomes `f l`, nothing else changes) by a map that is injective on the labels of the group
+    renames the results (`relabel f`: only the `label` field changes) and leaves everything else —
+    clp labels, clps, residual, weighted residual, fitted data — exactly as it was. -/
+theorem linked_result_label_independent (mi : ModelItems) (g : Group) (f : String → String)
+    (hinj : ∀ d1 ∈ g.datasets, ∀ d2 ∈ g.datasets, f d1.label = f d2.label → d1.label = d2.label) :
+    linkedResults mi (renameGroup f g) = (linkedResults mi g).map (List.map (relabel f)) :=
+  linkedResults_rename mi g f hinj
+
+/-- all numeric fields (and the clp labels) of the results are unchanged -/
+theorem linked_result_numeric_label_independent (mi : ModelItems) (g : Group) (f : String → String)
+    (hinj : ∀ d1 ∈ g.datasets, ∀ d2 ∈ g.datasets, f d1.label = f d2.label → d1.label = d2.label) :
+    (linkedResults mi (renameGroup f g)).map
+        (List.map (fun r => (r.clpLabels, r.clps, r.residual, r.weighted, r.fitted))) =
+    (linkedResults mi g).map
+        (List.map (fun r => (r.clpLabels, r.clps, r.residual, r.weighted, r.fitted))) := by
+  rw [linkedResults_rename mi g f hinj]
+  cases linkedResults mi g with
+  | none => rfl
+  | some rs => simp [relabel, Function.comp_def]
+
+/-- two datasets (2 × 2 unweighted, 3 × 2 weighted and scaled) overlapping in one aligned index -/
+private def exGroup (l1 l2 : String) : Group :=
+  { linked := true, solver := .vp, tol := 0, method := .nearest,
+    datasets := [
+      { label := l1, globalAxis := [0, 1], data := [[1, 2], [2, 3]], weight := none, scale := none,
+        mcs := [⟨⟨["c"], .d2 [[1], [1]]⟩, none⟩], gmcs := [] },
+      { label := l2, globalAxis := [1, 2], data := [[4, 1], [6, 1], [9, 2]],
+        weight := some [[1, 2], [1, 1], [2, 1]], scale := some 2,
+        mcs := [⟨⟨["c", "e"], .d2 [[1, 0], [1, 1], [1, 2]]⟩, none⟩], gmcs := [] }] }
+
+example : (linkedResults {} (exGroup "a" "b")).isSome = true ∧
+    linkedResults {} (renameGroup (fun l => l ++ "'") (exGroup "a" "b")) =
+      (linkedResults {} (exGroup "a" "b")).map (List.map (relabel (fun l => l ++ "'"))) :=
+  ⟨by decide +kernel,
+   linked_result_label_independent {} (exGroup "a" "b") (fun l => l ++ "'") (by
+     intro d1 _ d2 _ h
+     simpa using h)⟩
+
+/-- injectivity on the group's labels cannot be dropped: giving both datasets the same label moves
+    the block offset of the second one (its residual is cut from the wrong place of the stacked
+    residual of the shared aligned index). -/
+theorem linked_result_label_independent_needs_injective :
+    (linkedResults {} (renameGroup (fun _ => "a") (exGroup "a" "b"))).map (List.map (·.residual)) ≠
+    (linkedResults {} (exGroup "a" "b")).map (List.map (·.residual)) := by
+  decide +kernel
 
 end Glotaran.C03
